@@ -87,6 +87,7 @@ impl TreeSpec {
 }
 
 pub struct Tree {
+	#[allow(dead_code)]
 	pub spec: TreeSpec,
 	pub n: usize,
 	pub parent: Vec<usize>,
